@@ -4,8 +4,7 @@ CONSTANTS SR = 2
           DR = 3
           DC = 4
           BatchBug = FALSE
-          ShiftBug = FALSE
+          ShiftBug = TRUE
 INVARIANT ScheduleIndependent
 INVARIANT ShiftScheduleIndependent
 INVARIANT InsideDetector
-INVARIANT RollConserves
